@@ -81,6 +81,8 @@ type Scenario struct {
 	// are runnable); 0 = unbounded. Scenarios with many blocking points need it:
 	// the set of non-preemptive schedules alone is exponential there.
 	FreeBound int
+	// PoolMiss: sync.Pool.Get may return a fresh object although the pool holds one (a data choice).
+	PoolMiss bool
 }
 
 // Stats of one exploration.
@@ -158,7 +160,7 @@ type Explorer struct {
 
 func (e *Explorer) runOnce(prefix []int, trace bool, prune func(int, rt.PointInfo) bool) (*Run, *rt.Outcome) {
 	x := &Run{Vals: map[string]interface{}{}}
-	cfg := rt.Config{Prefix: prefix, Trace: trace, Ticks: e.sc.Ticks, WriterPref: e.sc.WPref, PruneAt: prune}
+	cfg := rt.Config{Prefix: prefix, Trace: trace, Ticks: e.sc.Ticks, WriterPref: e.sc.WPref, PruneAt: prune, PoolMiss: e.sc.PoolMiss}
 	o := rt.Run(cfg, func() { e.sc.Body(x) })
 	return x, o
 }
